@@ -21,7 +21,8 @@ CLAIMED = {
     "C06": ("§4 C06", "decides: PART.context/split/balance/terminal/advance/entry/siblings on both partition variants, REFUSE, PREPROC.once, "
                       "who-may-call of the preprocessing hook. Assumes: uniqueness theorem of the tolerance partition, solver correctness, "
                       "refusal is an `assert` (active under default interpreter flags). Also DIAG.flags (all four modes of "
-                      "consistency_diagnostics, evaluated over partition/∅ outcomes and last-layer sizes 0..2) and FACT.shape",
+                      "consistency_diagnostics, evaluated over partition/∅ outcomes and last-layer sizes 0..2) and FACT.shape (fact conditionals, fresh keys above "
+                      "the highest key of the base, the base handed in is left untouched), STATE.init-preserves",
             "abstract interpretation (solver-scope typestate, decision tables) + sibling cross-check + who-may-call"),
 }
 
@@ -39,7 +40,7 @@ CLAIMED.update({
                       "LEX.tie-quantifier and LEX.tie-constraints (two abstract witnesses per side, Rec uninterpreted), LEX.start, SHORTCUT.*, "
                       "DISPATCH, PART.*, CNF.*, MCS.*, Z3MCS.*. Assumes: as C03",
             "abstract interpretation + two-witness instantiation of the tie loops + decision-table comparison"),
-    "C15": ("§4 C15", "decides: CNF.roles, CNF.literals, CNF.constants (incl. handling, on witness goals), CNF.pool, MCS.violated, MCS.block, "
+    "C15": ("§4 C15", "decides: CNF.roles, CNF.literals, CNF.constants (incl. handling, on witness goals), CNF.pool (helper constructors evaluated on a state with and without the slots), MCS.violated, MCS.block, "
                       "MCS.minimal (three abstract sets, ⊆ uninterpreted), MCS.loop, CACHE.readonly for clauses. Assumes: z3's tseitin-cnf tactic "
                       "preserves satisfiability per assignment of the original atoms; RC2 returns optimal models",
             "abstract interpretation of the encoder and of the enumeration loop + witness instantiation"),
@@ -48,45 +49,47 @@ CLAIMED.update({
 CLAIMED.update({
     "C05": ("§4 C05", "decides: C.minima-roles, C.relations (linear forms: η_i − mv_i + mf_i > 0, η_i ≥ 0, minima encoding, query constraint, answer "
                       "polarity, one summand Σ η_j per correction set), C.query-edges, C.empty-minimum, C.selffulfilling, KEY.no-positional on the "
-                      "η/mv/mf name families, CNF.*, MCS.* (the enumeration summary is discharged in the same check). Assumes: the compilation "
+                      "η/mv/mf name families, KEY.no-reserved on the query's mv/mf names, C.preprocess-flow (CNFs, minima, base constraints in that order, kept in the state), CNF.*, MCS.* (the enumeration summary is discharged in the same check). Assumes: the compilation "
                       "theorem (von Berg et al.), SMT solver correctness",
             "abstract interpretation + canonical linear forms + provenance qualifiers of indices"),
     "C07": ("§4 C07", "decides for p-entailment, System Z, System W (rc2, z3), lex (rc2, z3): EXT.inf-hard, EXT.vacuity (guards compared over "
                       "satisfiability patterns), EXT.start-total (integer reasoning over len(P) ≥ 1), EXT.only-infinity, EXT.pinf, and the "
-                      "recursion obligations on the generic head (Z.*). Assumes: semantic adequacy of the extended definitions",
+                      "recursion obligations on the generic head (Z.*), MANAGER.init (the mode flag reaches the state). Assumes: semantic adequacy of the extended definitions",
             "abstract interpretation + guard equivalence over satisfiability patterns + small integer reasoning"),
     "C09": ("§4 C09", "decides three clauses only: D1 SHORTCUT.guard/dominance, D2 the per-operator decision SAT(A∧¬B)∧UNSAT(A∧B) ⇒ False "
                       "(Z.decision, W.subset-test rows with V=∅, LEX.cardinality, LEX.strict-shortcuts), D3 CNF.roles/literals/constants and Z.start / W.start / LEX.start (direct inference needs every layer reached). Not "
                       "decided: And, Or, cautious monotony, Cut, rational monotony, LLE, RW (relations between answers of different queries)",
             "composition of the operator rules (abstract interpretation, decision tables)"),
-    "C11": ("§4 C11", "decides: BACKEND.dispatch, BACKEND.engine-neutral, DISPATCH, W.siblings / LEX.siblings / EXT.siblings (both implementations "
+    "C11": ("§4 C11", "decides: BACKEND.dispatch (evaluated on the concrete names rc2, rc2-g3, rc2-g4, rc2-cd, rc2-m22, rc2-mgh), MANAGER.init, DISPATCH, W.siblings / LEX.siblings / EXT.siblings (both implementations "
                       "discharge one obligation table on a common abstract form), Z3.translate, Z3MCS.*, MCS.*. Assumes: the solvers agree",
             "sibling cross-check on a common abstract form (abstract interpretation of both implementations)"),
     "C12": ("§4 C12", "decides: KEY.no-reserved, KEY.no-positional, NONINTERF. Not decided: invariance under reordering, atom renaming and "
                       "equivalent rewriting (semantic)",
             "provenance qualifiers of keys and indices carried by the abstract values + non-interference audit of decisions and answers"),
-    "C13": ("§4 C13", "decides: STATE.lifetime, STATE.solver-per-query, ROWS.key, ROWS.columns, PAR.key, PAR.join, QUERYSLOT.def-before-use (also on "
+    "C13": ("§4 C13", "decides: STATE.lifetime, STATE.solver-per-query, STATE.init-preserves, ROWS.key, ROWS.columns, ROWS.order (rows in submission order), TIMEOUT.per-query, PAR.key, PAR.join, QUERYSLOT.def-before-use (also on "
                       "the state an earlier query left behind), CACHE.readonly, PREPROC.once. Not decided: scheduling of processes, fork semantics",
             "attribute-lifetime audit over the class hierarchy + abstract interpretation of the wrappers (key provenance, process typestate)"),
     "C14": ("§4 C14", "decides: CHECK.three-way, TIMEOUT.flow, TIMEOUT.row (query rows, worker rows, rows after a preprocessing timeout), "
                       "TIMEOUT.guarded-raise (an observed expiry leaves the enumeration by TimeoutError only), STATE.solver-per-query, "
-                      "ROWS.columns, PREPROC.once. Not decided: when an expiry "
+                      "TIMEOUT.per-query (a deadline per query), nothing but the operator's own error escapes a wrapper, the preprocessing flag of a row is "
+                      "the one after this call's preprocessing, ROWS.columns, PREPROC.once. Not decided: when an expiry "
                       "happens, z3 honouring its timeout",
             "typestate of check()/model() with a three-valued result + handler audit over the call paths + abstract interpretation of the wrappers"),
 })
 
 CLAIMED.update({
     "C16": ("§4 C16", "decides: ZRANK.recursion (both copies), WORLD.literals, ZRANK.cache, ZRANK.pure, FACT.shape (both builders), partition "
-                      "mode, ZRANK.refuse, RANK.min and ACCEPT.decision (acceptance through formula ranks), PART.* on `consistency`. Not decided: equality with the operator's answers, solver",
+                      "mode, ZRANK.refuse, DIAG.flags (the diagnostics carried by the refusal), FACTORY.forward, the caller's base left untouched, RANK.min and ACCEPT.decision (acceptance through formula ranks), PART.* on `consistency`. Not decided: equality with the operator's answers, solver",
             "abstract interpretation (solver scopes, decision table, cache typestate) + sibling cross-check"),
     "C17": ("§4 C17", "decides four clauses: CREP.rank, KEY.no-positional between impacts / η names / conditionals, CHECK.three-way and the "
                       "objectives at the constructor, C.relations and C.empty-minimum of the solved system, RANK.min / ACCEPT.decision, and the shape of "
-                      "the front enumeration (solver scope, objectives, CHECK.three-way, MODEL.extract on solve_pareto_front). Not decided: "
+                      "the front enumeration (solver scope, objectives, CHECK.three-way, MODEL.extract on solve_pareto_front), FRONT.wiring of "
+                      "c_inference_pareto_front, FACTORY.forward, KEY.no-reserved of the query names. Not decided: "
                       "Pareto minimality, termination of the front enumeration, relation to c-inference",
             "abstract interpretation + provenance qualifiers of indices"),
-    "C18": ("§4 C18", "decides: RANK.min, ACCEPT.decision, MARG.bits, COND.filter, TPO.order, WORLD.literals. Assumes: solver, BitVector",
+    "C18": ("§4 C18", "decides: RANK.min, ACCEPT.decision, MARG.bits, COND.filter, TPO.order (both directions, tpo2ranks by evaluation on a symbolic list of layers), WORLD.literals, FACTORY.forward. Assumes: solver, BitVector",
             "abstract interpretation (accumulator update tables, decision tables, key construction)"),
-    "C20": ("§4 C20", "decides three clauses: SAVE.restore (all exits incl. failing open/dump), IMPACTS.keys, IMPACTS.accept (no legitimate vector "
+    "C20": ("§4 C20", "decides three clauses: SAVE.restore (all exits incl. failing open/dump), STATE.pickled (__getstate__/__setstate__ keep every attribute with its full content), IMPACTS.keys (export followed by import of what it wrote; size check before replacement), IMPACTS.accept (no legitimate vector "
                       "rejected on reload), FORMAT.agree (tables over suffix "
                       "classes x fmt, loader fallbacks followed through exceptional paths). Not decided: pickling across interpreters, equality "
                       "of continued lazy computation",
